@@ -72,6 +72,8 @@ def _value(v, tracers):
     if k == "r":
         x = _value(v[1], tracers)
         return 0.0 if abs(x) < 1e-99 else x
+    if k == "x":
+        return float(Fr(v[1])) * _value(v[2], tracers)
     raise InfraError("unknown value kind %s" % k)
 
 
